@@ -75,8 +75,8 @@ impl<'a> Visitor for Op<'a> {
                     Err(e) => format!("err gen:{}", e.replace(' ', "_")),
                 }
             }
-            // `enc <name> <Ty> <Val>` -> bits
-            "enc" => {
+            // `enc <name> <Ty> <Val>` -> bits (`conf`: the same, the driver adds the X.691 bits)
+            "enc" | "conf" => {
                 let v: T = match from_val(val_of_sx(a.get(1)?)?) {
                     Ok(v) => v,
                     Err(_) => return None,
@@ -89,6 +89,14 @@ impl<'a> Visitor for Op<'a> {
             // `dec <name> <Ty> <bits>` -> value, consumed
             "dec" => {
                 let (bytes, n) = string_to_bits(atom(a.get(1)?)?)?;
+                match decode::<T>(&bytes, n) {
+                    Ok((dump, consumed, _)) => format!("ok {dump} {consumed}"),
+                    Err(k) => format!("err {k}"),
+                }
+            }
+            // `xdec <name> <Ty> <Val> <bits>`: decode the X.691 encoding of <Val> -> value, consumed
+            "xdec" => {
+                let (bytes, n) = string_to_bits(atom(a.get(2)?)?)?;
                 match decode::<T>(&bytes, n) {
                     Ok((dump, consumed, _)) => format!("ok {dump} {consumed}"),
                     Err(k) => format!("err {k}"),
